@@ -10,7 +10,7 @@ from fractions import Fraction
 
 import numpy as np
 
-from hyverif.core import digest
+from hyverif.core import digest, size_edges
 
 ID = "C04"
 SHARDS = {"quick": 8, "thorough": 16}
@@ -33,7 +33,7 @@ ASSUMPTIONS = [
     "series (a category absent from both is passed explicitly via ncat)",
     "KGE uses the 2009 formulation (ratio of standard deviations, any common ddof)",
 ]
-OBLIGATIONS = {"order:obs-sorted": 10, "order:opposite": 10, "order:constant-sim": 10, "order:sim-high-level": 10,
+OBLIGATIONS = {"size-edge": 20, "order:obs-sorted": 10, "order:opposite": 10, "order:constant-sim": 10, "order:sim-high-level": 10,
                "bias:standard": 50, "bias:normalised": 50, "bias:log": 50,
                "nse": 50, "kge": 50, "corr:Pearson:mean": 30,
                "corr:Pearson:median": 30, "corr:Spearman:mean": 30,
@@ -565,6 +565,10 @@ def run(ctx):
         n = int(rng.integers(2, 30)) if rng.random() < 0.6 else int(rng.integers(2, 501))
         if it % 6 == 4:
             n = [2, 3, 4, 2][(it // 6) % 4]          # the smallest series
+        elif it % 6 == 1:
+            ed = size_edges(5, 20001 if ctx.tier == "quick" else 100001)
+            n = ed[((it // 6) * ctx.nshards + ctx.shard) % len(ed)]
+            ctx.tag("size-edge")
         obs, sim = gen_series(rng, n, positive)
         # special orders: sorted observations, simulation in the same / opposite order,
         # constant simulation
